@@ -726,6 +726,14 @@ def gen_pop_recipe(rng, n_dim_total=None, depth=0, allow_cov=True):
     """Draws a population model recipe; returns recipe."""
     leaf = ['G', 'LN', 'TG', 'P', 'H']
     if n_dim_total is not None:
+        if rng.random() < 0.15:
+            # one bare model over all dimensions (no composite around it);
+            # not a bare pooled / heterogeneous model: sampling individuals
+            # from one is the known finding KF-C15-2 (n_ids, not n_samples,
+            # columns are filled; the rest is uninitialised memory)
+            leaf_ = gen_pop_leaf(rng, n_dim_total, allow_cov)
+            if leaf_['cls'] not in ('P', 'H'):
+                return leaf_
         # composed model with exactly n_dim_total dimensions
         subs = []
         left = n_dim_total
